@@ -53,7 +53,7 @@ theorem applyA_plain_eq (fl : Flags) (a : StA Unit) (e : Ev) : applyA fl plain a
 
 /-- what every callback but a registration leaves alone -/
 structure Glob (s s' : St) : Prop where
-  ready : ∃ app, s'.ready = s.ready ++ app ∧ ∀ i, app.count (Cb.register i) = 0
+  ready : ∃ app, s'.ready = s.ready ++ app ∧ ∀ i, app.count (Cb.register i) = 0 ∧ app.count (Cb.resume i) = 0
   registry : s'.registry = s.registry
   regResult : s'.regResult = s.regResult
   n : s'.n = s.n
